@@ -57,6 +57,9 @@ class RunnerBasics(Harness):
             {"M": 1, "A": 1, "H": 1, "S": 1, "acts": L, "pre": 0, "cap": 1, "script": "hft-batch"},
             # both agents trade at t=0, then cancel (filled / resting) orders at t=1
             {"M": 1, "A": 2, "H": 0, "S": 2, "acts": L, "pre": 0, "cap": 2, "script": "cancel-filled"},
+            # the same with cancel requests that already carry a time stamp / are handed in a second time
+            {"M": 1, "A": 2, "H": 0, "S": 2, "acts": L, "pre": 0, "cap": 2, "script": "cancel-filled", "cancel_objects": "stamped"},
+            {"M": 1, "A": 1, "H": 0, "S": 3, "acts": L, "pre": 0, "cap": 1, "script": "cancel-again", "cancel_objects": "reused"},
             # two markets, agents free to hit them in any order (records must keep the global event order)
             {"M": 2, "A": 2, "H": 0, "S": 1, "acts": L, "pre": 0, "cap": 2, "script": "two-markets"},
             # a crossed book left by a no-execution step is cleared by the round a third agent's order starts
@@ -105,6 +108,9 @@ class RunnerBasics(Harness):
             menu = {"vol_fixed": 1, "per_agent": {
                 "0": {"side": "B", "acts_by_time": {"0": ["limit"], "1": ["none", "limit", "cancel"]}},
                 "1": {"side": "S", "acts_by_time": {"0": ["limit"], "1": ["none", "cancel"]}}}, "ttl": [None, 1]}
+        elif sc == "cancel-again":   # one agent: an order at t=0, cancels of it at t=1 and again at t=2
+            menu = {"vol_fixed": 1, "per_agent": {"0": {"side": "B"}},
+                    "acts_by_time": {"0": ["limit"], "1": ["cancel"], "2": ["cancel"]}}
         elif sc == "bystander":
             menu = {"vol_hi": 2, "price_hi": 1000, "acts": ["limit"],
                     "per_agent": {"0": {"side": "B", "active": [0, 0]}, "1": {"side": "S", "active": [0, 0]},
@@ -127,6 +133,8 @@ class RunnerBasics(Harness):
         elif sc == "two-markets":
             menu = {"vol_fixed": 1, "max_orders": 2, "acts": ["none", "limit"],
                     "per_agent": {"0": {"side": "B"}, "1": {"side": "S"}}}
+        if case.get("cancel_objects"):
+            menu["cancel_objects"] = case["cancel_objects"]
         mon = _Monitor(g, self.props)
         ctx = rn.make_run(g, st, menu, on_event=mon.on_event)
         mon.start(ctx)
@@ -150,6 +158,11 @@ class _Monitor:
     # ---- online part
     def on_event(self, kind, agent, payload):
         g = self.g
+        if kind == "canceled" and "C10" in self.props:
+            # the owner is told right after the cancel was handled: the record carries the present step
+            now = self.sim.id2market[payload.market_id].get_time()
+            g.require(payload.cancel_time == now, "C10.cancel-record-fields",
+                      f"cancel record of order {payload.order_id} handled at t={now} says cancel_time={payload.cancel_time}")
         if kind in ("log-write", "log-direct") and isinstance(payload, ExecutionLog):
             if id(payload) not in self.fill_ids:
                 self.fill_ids.add(id(payload))
